@@ -658,6 +658,29 @@ func (s *symFn) loadAt(addr ssa.Value, t types.Type, at ssa.Instruction) *Sym {
 			n, emb := fieldOf(a.X.Type(), a.Field)
 			return sField(cell, n, emb, t)
 		}
+		// a field reached through a pointer parameter that this function assigned earlier
+		if tgt := s.paramFieldTarget(a); tgt != "" {
+			var best *ssa.Store
+			ambiguous := false
+			for _, b := range s.fn.Blocks {
+				for _, in := range b.Instrs {
+					st, ok := in.(*ssa.Store)
+					if !ok || s.paramFieldTarget(st.Addr) != tgt {
+						continue
+					}
+					if instrDominates(st, at) {
+						if best == nil || instrDominates(best, st) {
+							best = st
+						}
+					} else if !instrDominates(at, st) {
+						ambiguous = true
+					}
+				}
+			}
+			if best != nil && !ambiguous {
+				return s.val(best.Val)
+			}
+		}
 	case *ssa.Parameter, *ssa.FreeVar:
 		if st, ok := s.dominatingStore(a, at); ok && st != nil {
 			return s.val(st.Val)
